@@ -40,6 +40,14 @@ let read_tuples f =
     | _ -> ()
   done with End_of_file -> ())
 
+(* exact rationals cross the boundary as binary num/den: "-1011/101" *)
+let bits_of_pos p =
+  let b = Buffer.create 64 in
+  let rec go p = match p with XH -> Buffer.add_char b '1' | XO p -> go p; Buffer.add_char b '0' | XI p -> go p; Buffer.add_char b '1' in
+  go p; Buffer.contents b
+let str_of_z = function Z0 -> "0" | Zpos p -> bits_of_pos p | Zneg p -> "-" ^ bits_of_pos p
+let str_of_q q = str_of_z q.qnum ^ "/" ^ bits_of_pos q.qden
+
 (* positions without a spec decider print '?' (numeric fields '?') and are skipped by the comparison *)
 let rand_mode () =
   let m77 = q_of_int (-77) in
@@ -63,9 +71,10 @@ let rand_mode () =
     List.iter (fun cb -> List.iter (fun p -> add (bc (spec_inPoly poly p cb))) [a; q; d]) [false; true];
     List.iter (fun p -> add (bc (spec_inPolyGen poly p))) [a; q; d];
     print_string (Buffer.contents o);
-    if int_of_z sc = 1 then Printf.printf " %.17g %.17g" (float_of_bigq sx) (float_of_bigq sy) else print_string " - -";
-    if int_of_z rc = 1 then Printf.printf " %.17g %.17g" (float_of_bigq rx) (float_of_bigq ry) else print_string " - -";
-    Printf.printf " %.17g\n" (float_of_bigq (spec_manhattanDist a b)))
+    (* numeric fields as exact rationals *)
+    if int_of_z sc = 1 then Printf.printf " %s %s" (str_of_q sx) (str_of_q sy) else print_string " - -";
+    if int_of_z rc = 1 then Printf.printf " %s %s" (str_of_q rx) (str_of_q ry) else print_string " - -";
+    Printf.printf " %s\n" (str_of_q (spec_manhattanDist a b)))
 
 let grid_mode () =
   let g = int_of_string Sys.argv.(1) and gp = int_of_string Sys.argv.(2) in
